@@ -288,11 +288,10 @@ def rule_e(ctx: Ctx) -> None:
     ctx.explain('C08.e: the ID table and the identity counters are document-wide: a copied context shares them.')
 
 
-def rule_f(ctx: Ctx) -> None:
+def rule_f(ctx: Ctx, rule: str = 'C08.f') -> None:
     """QName field values are expanded with the in-scope namespaces of the selected element: typestate {own, descendant} of the
     converter's xmlns scope over XsdElement.raw_decode — 'descendant' after any decode that may walk children, 'own' after
     set_xmlns_context(obj, level); collect_key_fields (and the converter hand-off) must run in state 'own' on every path."""
-    rule = 'C08.f'
     f = ctx.idx.func(f'{ELEM}.raw_decode')
     g = cfg_of(ctx, f)
 
@@ -333,7 +332,7 @@ def rule_f(ctx: Ctx) -> None:
     ckf = ctx.idx.func(f'{ELEM}.collect_key_fields')
     ok = 'context.namespaces' in text(ckf.node)
     ctx.ob(rule, 'collect_key_fields expands field values with the context namespaces', ckf.loc(), ok, '', key=f'{ELEM}.collect_key_fields|namespaces', nontrivial=False)
-    ctx.explain('C08.f: typestate of the converter xmlns scope over the CFG of XsdElement.raw_decode.')
+    ctx.explain(f'{rule}: typestate of the converter xmlns scope over the CFG of XsdElement.raw_decode.')
 
 
 RULES = [rule_a, rule_b, rule_c, rule_d, rule_e, rule_f]
